@@ -17,6 +17,9 @@ import time
 VERIF = os.path.dirname(os.path.dirname(os.path.abspath(__file__)))
 REPO = os.environ.get("VERIF_REPO", "/repo")
 CACHE = os.path.join(VERIF, ".cache")
+if REPO != "/repo":
+    # scratch copies (self-test mutants) keep their facts inside the copy, removed with it
+    CACHE = os.path.join(REPO, ".verif_cache")
 TOOL = os.path.join(VERIF, "tools", "adafacts")
 UNIT = os.path.join(VERIF, "tu", "unit.cpp")
 
